@@ -103,6 +103,18 @@ pub(crate) fn compute(
     let coset = quotient_domain.coset_ifft(&quotient);
     let quotient_poly = Polynomial::from_coefficients_vec(coset);
 
+    // Verification hook: when the calling thread asked for it, drop the
+    // remainder (keep the low 4n + 7 coefficients) and skip the
+    // unsatisfied-circuit test, so soundness monitors can hand the verifier
+    // a proof produced from a violating assignment.
+    #[cfg(feature = "verif")]
+    if crate::verif::force_prove() {
+        let keep = 4 * (quotient_domain.size() / 8) + 7;
+        let mut coeffs = quotient_poly.to_vec();
+        coeffs.truncate(keep);
+        return Ok(Polynomial::from_coefficients_vec(coeffs));
+    }
+
     // A satisfied assignment yields a numerator divisible by the vanishing
     // polynomial of the domain, and the quotient's degree is bounded by the
     // numerator's: the permutation product z(x) (degree n + 2, with hiding
